@@ -55,6 +55,30 @@ impl Ctx {
         self.count(&format!("family:{}", family));
         let l = format!("scenario {}", self.scenario);
         self.line(l);
+        self.chaff();
+    }
+
+    /// History independence: every third scenario starts with an operation the library rejects (a malformed encoding of one of
+    /// several kinds, an assembly it refuses).  Whatever a rejected call leaves behind - a half-filled buffer, a cache entry, a
+    /// flag - must not show in what follows; the model, being a function, cannot have such a memory, and the oracles run on the
+    /// results as always.  The choice is a function of the scenario's name, not of the generator's random stream.
+    fn chaff(&mut self) {
+        if self.prop == "scratch" || self.prop == "C20" || self.n_scen % 3 != 1 { return; }
+        let kinds = chaff_encodings();
+        let k = (fnv(&self.scenario) % (kinds.len() as u64 + 2)) as usize;
+        if k < kinds.len() {
+            let r = self.assign(&format!("decode {}", kinds[k].1));
+            let ok = self.is_ok(&r);
+            self.count(&format!("chaff:{}", kinds[k].0));
+            // (only C06 is about what the decoder refuses; elsewhere the call is just history)
+            if self.prop == "C06" { self.check("chaff-rejected", !ok, "malformed-accepted", || format!("the malformed encoding {} ({}) was accepted", kinds[k].1, kinds[k].0)); }
+        } else if k == kinds.len() {
+            let a = self.assign("leaf 01"); let _ = self.assign(&format!("add {} {}", a, a));
+            self.count("chaff:add-non-assertion");
+        } else {
+            let a = self.assign("leaf 6161"); let _ = self.assign(&format!("unwrap {}", a)); let _ = self.assign(&format!("uncompress {}", a));
+            self.count("chaff:unwrap-uncompress-leaf");
+        }
     }
 
     /// finish a scenario: keep a few as samples
@@ -134,4 +158,29 @@ impl Ctx {
         skel(e, &mut s);
         self.shapes.insert(fnv(&s));
     }
+}
+
+/// encodings the decoder must refuse, one of each kind of refusal (computed once)
+fn chaff_encodings() -> &'static Vec<(&'static str, String)> {
+    use bc_envelope::prelude::*;
+    use bc_components::DigestProvider;
+    static V: std::sync::OnceLock<Vec<(&'static str, String)>> = std::sync::OnceLock::new();
+    V.get_or_init(|| {
+        let tagged = |items: Vec<CBOR>| hex::encode(CBOR::to_tagged_value(200u64, CBOR::from(items)).to_cbor_data());
+        let s = Envelope::new("s");
+        let a1 = Envelope::new_assertion(1u64, 2u64); let a2 = Envelope::new_assertion(3u64, 4u64);
+        let (lo, hi) = if a1.digest().data() < a2.digest().data() { (a1, a2) } else { (a2, a1) };
+        vec![
+            ("non-assertion-in-slot", tagged(vec![s.untagged_cbor(), Envelope::new("x").untagged_cbor()])),
+            ("non-assertion-after-assertions", tagged(vec![s.untagged_cbor(), lo.untagged_cbor(), hi.untagged_cbor(), Envelope::new("x").untagged_cbor()])),
+            ("descending", tagged(vec![s.untagged_cbor(), hi.untagged_cbor(), lo.untagged_cbor()])),
+            ("repeated", tagged(vec![s.untagged_cbor(), lo.untagged_cbor(), lo.untagged_cbor()])),
+            ("arity-one", tagged(vec![s.untagged_cbor()])),
+            ("unknown-tag", "d8c8d86301".to_string()),
+            ("two-entry-map", "d8c8a201020304".to_string()),
+            ("short-digest", "d8c8420102".to_string()),
+            ("nested-unknown-tag", "d8c8d8c8d8c8d86301".to_string()),
+            ("node-in-node-bad-tail", tagged(vec![CBOR::from(vec![s.untagged_cbor(), lo.untagged_cbor()]), Envelope::new("x").untagged_cbor()])),
+        ]
+    })
 }
